@@ -1,1 +1,44 @@
-// independent reference implementations (oracles)
+//! Independent reference implementations (oracles). Nothing here calls into kira's
+//! implementation of the same thing.
+
+use kira::Easing;
+
+/// Independent easing curves (written from the documentation of `Easing`).
+pub fn ease_ref(e: Easing, x: f64) -> f64 {
+	fn inp(x: f64, p: f64) -> f64 {
+		x.powf(p)
+	}
+	fn inout(x: f64, p: f64) -> f64 {
+		if x < 0.5 {
+			0.5 * (2.0 * x).powf(p)
+		} else {
+			1.0 - 0.5 * (2.0 - 2.0 * x).powf(p)
+		}
+	}
+	match e {
+		Easing::Linear => x,
+		Easing::InPowi(p) => inp(x, p as f64),
+		Easing::OutPowi(p) => 1.0 - inp(1.0 - x, p as f64),
+		Easing::InOutPowi(p) => inout(x, p as f64),
+		Easing::InPowf(p) => inp(x, p),
+		Easing::OutPowf(p) => 1.0 - inp(1.0 - x, p),
+		Easing::InOutPowf(p) => inout(x, p),
+	}
+}
+
+pub fn db_to_amp(db: f64) -> f64 {
+	if db <= -60.0 {
+		0.0
+	} else {
+		10f64.powf(db / 20.0)
+	}
+}
+
+/// 4-point, 3rd-order Hermite (x-form), written from Niemitalo's paper, in f64.
+pub fn hermite(ym1: f64, y0: f64, y1: f64, y2: f64, x: f64) -> f64 {
+	let c0 = y0;
+	let c1 = 0.5 * (y1 - ym1);
+	let c2 = ym1 - 2.5 * y0 + 2.0 * y1 - 0.5 * y2;
+	let c3 = 0.5 * (y2 - ym1) + 1.5 * (y0 - y1);
+	((c3 * x + c2) * x + c1) * x + c0
+}
